@@ -9,11 +9,13 @@ def run_cases(chk, ctx, cases, label):
         chk.count()
         chk.nontrivial((c['cls'], c['op'], c['rnd'], i[:3], c['p'] if c['p'] < 6 else 6))
         want = vd.oracle_c12(c, i)
+        if want is None:
+            want = vd.oracle_c12_rational(c, i)
         if want is not None and want != i:
             chk.violation("%s: implementation result differs from the exact rational result rounded as C12 prescribes" % label,
                           dict(case=c, implementation=i, expected=want, op=vd.OPS[c['op']]),
                           signature=dict(kind='c12-oracle', op=vd.OPS[c['op']]))
-        if m is not None:
+        if m is not None and m != 'badop':
             chk.validated()
             if m != i:
                 ctx['broken'].append("correspondence values/%s: model %r vs implementation %r on %r" % (label, m, i, c))
@@ -30,6 +32,9 @@ def run(chk, ctx):
                        "non-trivial/distinct = (class, op, rounding, outcome kind, precision bucket)")
     cases = vd.gen_cases(chk.seed, n, classes=(0, 0, 0, 2))
     run_cases(chk, ctx, cases, 'random')
+    # rational arithmetic: exact and closed under every operator, the unary ones included (the model has no entry for
+    # neg/pos/abs of a Rational: those three are decided by the Fraction oracle and the wrapped-method theorem)
+    run_cases(chk, ctx, vd.gen_cases(chk.seed, n // 6, classes=(2,), ops=[1, 2, 3, 4, 5, 7, 9, 10, 11, 12]), 'rational')
     if ctx['tier'] == 'thorough':
         grid = list(vd.grid_cases(maxraw=40, ps=(0, 1, 2, 3)))
         run_cases(chk, ctx, grid, 'grid')
@@ -39,5 +44,7 @@ def replay(chk, payload):
     c = payload['case']
     c['A'], c['B'], c['C'] = tuple(c['A']), tuple(c['B']), tuple(c['C'])
     i = vd.impl_eval(c)
-    print("implementation:", i, " expected:", vd.oracle_c12(c, i))
-    return 0 if vd.oracle_c12(c, i) in (None, i) else 1
+    want = vd.oracle_c12(c, i)
+    if want is None: want = vd.oracle_c12_rational(c, i)
+    print("implementation:", i, " expected:", want)
+    return 0 if want in (None, i) else 1
